@@ -597,13 +597,36 @@ Fixpoint sites_ok (G : env) (args : list carg) (fs : list farg) : bool :=
   | _, _ => false
   end.
 
-(* state: window_dict as in wr_s; every window statement records the ROOT of its source as src_buf *)
+(* the root buffer of a name according to the environment: a window variable stands for its recorded src_buf *)
+Definition rootG (G : env) (x : ident) : ident :=
+  match lookup x G with
+  | Some b => match b_org b with FromWin => b_src b | _ => x end
+  | None => x
+  end.
+
+Definition names_agree (G : env) (D : list (ident * ident)) (args : list carg) : bool :=
+  forallb (fun a => match arg_name a with Some x => Nat.eqb (root D x) (rootG G x) | None => true end) args.
+
+(* state: window_dict exactly as threaded by wr_s.  Checked on the way:
+   - every window statement records the ROOT of its source as src_buf, and the environment's entry for the new name
+     is this very statement's (unique binders);
+   - at every write and at every call argument the window_dict resolves the name as the environment does
+     (names are used after their definition);
+   - every call site satisfies site_ok. *)
 Fixpoint hyp_s {A} (sigs : list (list farg)) (G : env) (st : bool * list (ident * ident)) (s : stmt A)
   : bool * list (ident * ident) :=
   let '(ok, D) := st in
   match s with
-  | SWin w src _ sb => (ok && Nat.eqb sb (root D src), (w, root D src) :: D)
-  | SCall f args => (ok && match nth_error sigs f with Some fs => sites_ok G args fs | None => false end, D)
+  | SAssign x _ _ | SReduce x _ _ => (ok && Nat.eqb (root D x) (rootG G x), D)
+  | SWin w src _ sb =>
+      (ok && Nat.eqb sb (root D src) && Nat.eqb (root D src) (rootG G src)
+          && match lookup w G with
+             | Some b => (match b_org b with FromWin => true | _ => false end) && Nat.eqb (b_src b) sb
+             | None => false
+             end,
+       (w, root D src) :: D)
+  | SCall f args =>
+      (ok && match nth_error sigs f with Some fs => sites_ok G args fs && names_agree G D args | None => false end, D)
   | SIf b1 b2 => fold_left (hyp_s sigs G) b2 (fold_left (hyp_s sigs G) b1 st)
   | SFor b => fold_left (hyp_s sigs G) b st
   | _ => st
